@@ -15,7 +15,7 @@ use tokio::runtime::Runtime;
 use crate::bo::{ConsensuStrategy, Database, DatabaseMataData, Databases, Value, ValueStatus};
 use crate::configuration::{
     NUN_S3_API_URL, NUN_S3_BUCKET, NUN_S3_KEY_ID, NUN_S3_MAX_INFLIGHT_REQUESTS, NUN_S3_PREFIX,
-    NUN_S3_READ_PREFIX, NUN_S3_SECRET_KEY,
+    NUN_S3_READ_PREFIX, NUN_S3_RETRY, NUN_S3_SECRET_KEY,
 };
 
 use super::common::get_keys_to_update;
@@ -102,20 +102,34 @@ impl S3Storage {
             }
 
             //keys_file.flush().unwrap();
-            rt.block_on(S3Storage::store_buffer_to_s3(
-                keys_file,
-                &format!("{}/nun.keys", db_name),
-            ));
-            rt.block_on(S3Storage::store_buffer_to_s3(
-                values_file,
-                &format!("{}/nun.values", db_name),
-            ));
+            S3Storage::store_buffer_or_fail(&rt, keys_file, &format!("{}/nun.keys", db_name));
+            S3Storage::store_buffer_or_fail(&rt, values_file, &format!("{}/nun.values", db_name));
         }
         //keys_file.
         //values_file.flush().unwrap();
         //write_metadata_file(db_name, db);
         //log::debug!("snapshoted {} keys", changed_keys);
         changed_keys
+    }
+
+    /// The keys are already marked as stored when the upload starts: an upload that failed must
+    /// be tried again and, if it keeps failing, must not pass for a snapshot (same policy as the
+    /// partitioned strategy)
+    fn store_buffer_or_fail(rt: &Runtime, buff: BytesMut, object_name: &String) {
+        let mut attempts_left = *NUN_S3_RETRY;
+        loop {
+            match rt.block_on(S3Storage::store_buffer_to_s3(buff.clone(), object_name)) {
+                Some(_) => return,
+                None if attempts_left > 0 => {
+                    log::warn!("Fail to store {} in s3, will retry {}", object_name, attempts_left);
+                    attempts_left = attempts_left - 1;
+                }
+                None => {
+                    log::error!("Fail to store {} in s3", object_name);
+                    panic!("Fail to store {} in s3", object_name);
+                }
+            }
+        }
     }
 
     async fn store_buffer_to_s3(mut buff: BytesMut, db_name: &String) -> Option<bool> {
